@@ -284,7 +284,7 @@ def show_hist(c):
         if st["k"] == "reset":
             out.append("cache reset")
             continue
-        out.append({"push": [{"labels": s_["ls"], "fingerprint": s_["fp"], "entries": s_["entries"]} for s_ in st["streams"]],
+        out.append({"push": [{"labels": s_.get("labels") or ("pool set %d" % s_["ls"]), "fingerprint": s_["fp"], "entries": s_["entries"]} for s_ in st["streams"]],
                     "scripted": {"series insert": "ok" if st["ts_ok"] else "FAILS", "samples insert": "ok" if st["spl_ok"] else "FAILS"},
                     "client retry of the previous body": bool(st.get("retry")),
                     "status": ob["status"],
@@ -360,11 +360,60 @@ def run_hist(ck):
             distinct.add(json.dumps(c["steps"]))
     ck.coverage["evaluations"] += len(cases)
     ck.coverage["distinct_nontrivial"] += len(distinct)
+    ncol = sum(1 for c in cases if c["class"].startswith("collision"))
+    ck.obligation("histories with series whose announcement keys agree on 32 bits were generated", ncol >= 9, "%d collision histories" % ncol)
     ck.coverage["rule"] += ("hist: histories of 1..8 steps (push of 1..3 streams over 4 label sets and 2 days incl. instants at midnight, client retry of the previous body, cache reset) "
-                            "with scripted outcomes of the series and the samples insert, run through the in-process writer router with one shared cache; non-trivial = at least 2 pushes, distinct by content. ")
+                            "with scripted outcomes of the series and the samples insert, plus 36 two-series histories whose announcement keys agree on the low / middle / high 32 bits, run through the in-process writer built by the production wiring (plugin.CreateStaticServiceRegistry: real GoCache and serializer); non-trivial = at least 2 pushes, distinct by content. ")
     ck.extra["hist_input_classes"] = hist
     ck.extra["hist_known"] = {"retry": len(res["K_retry"])}
     ck.add_samples([show_hist(c) for c in cases if len(c["steps"]) >= 2][:1])
+
+
+# ------------------------------------------------------------------------------------------ cache keys
+def run_keys(ck):
+    outp = os.path.join(ck.work, "keys.jsonl")
+    rc, out = ck.go_run("seriesid", ["--mode", "keys", "--seed", ck.seed, "--n", ck.n(400, 4000), "--out", outp])
+    if rc != 0:
+        ck.obligation("harness seriesid --mode keys ran (production cache built by plugin.CreateStaticServiceRegistry)", False, out[-1500:])
+        return
+    cases = [json.loads(l) for l in open(outp)]
+    txt = ("From Coq Require Import List ZArith Bool String Uint63.\n"
+           "From Qryn Require Import model.Labels model.CacheKey.\n"
+           "Import ListNotations.\nOpen Scope Z_scope.\n"
+           "Definition cases : list kcase := [\n  " +
+           ";\n  ".join("{| kc_id := %d; kc_k1 := %s; kc_k2 := %s; kc_s1 := %s; kc_s2 := %s |}" % (
+               c["id"], coq_u64(c["k1"]), coq_u64(c["k2"]), coq_bytes(unhex(c["s1"])), coq_bytes(unhex(c["s2"]))) for c in cases) +
+           "].\nDefinition R := Eval vm_compute in kreport cases.\nPrint R.\n")
+    rc, out = ck.coq_eval("C04_keys", txt)
+    res = parse_report(out, ["M_key", "V_key"]) if rc == 0 else None
+    if res is None:
+        ck.obligation("cache-key cases evaluated inside Coq", False, out[-1500:])
+        return
+    byid = {c["id"]: c for c in cases}
+    nreal = sum(1 for c in cases if c["class"].startswith("announcement-keys"))
+    ck.obligation("announcement keys agreeing on 32 of their 64 bits were found by the birthday search (low, middle and high window)",
+                  len(set(c["class"] for c in cases if c["class"].startswith("announcement-keys"))) == 3, "found %d pairs" % nreal)
+    ck.obligation("cache_key_injective on the production serializer: %d pairs of different 64-bit keys (incl. %d pairs of real announcement keys agreeing on 32 bits) get different byte keys" % (len(cases), nreal),
+                  not res["V_key"], "case ids: %s" % res["V_key"][:10])
+    ck.obligation("correspondence: model CacheKey.ser_le8 = serializer of plugin.GoCache on %d keys" % (2 * len(cases)), not res["M_key"],
+                  "case ids: %s" % res["M_key"][:10])
+    if res["V_key"]:
+        c = byid[res["V_key"][0]]
+        ck.violation({"property": "C04", "part": "keys", "kind": "the announcement cache's key serializer maps two different 64-bit keys to the same bytes",
+                      "case": c, "readable": {"key 1": "0x%016x" % int(c["k1"]), "key 2": "0x%016x" % int(c["k2"]), "bytes 1": c["s1"], "bytes 2": c["s2"]},
+                      "explanation": "key_violation (model/CacheKey.v); the history part shows the consequence (a series swallowed by another one's cache entry)",
+                      "replay": "seriesid --mode keys --cases <file with this case>"})
+    elif res["M_key"]:
+        ck.violation({"property": "C04", "part": "keys", "kind": "model/implementation disagree on the serializer; it is still injective on all pairs",
+                      "case": byid[res["M_key"][0]]}, no_input=True)
+    hist = {}
+    for c in cases:
+        hist[c["class"]] = hist.get(c["class"], 0) + 1
+    ck.coverage["evaluations"] += len(cases)
+    ck.coverage["distinct_nontrivial"] += len(set((c["k1"], c["k2"]) for c in cases))
+    ck.coverage["rule"] += ("keys: pairs of different uint64 cache keys: real announcement keys (maybeAddFp's hash) agreeing on the low / middle / high 32 bits found by a birthday search over 300000 candidates, "
+                            "and random keys differing in one bit, one byte, the high half, the low half; all non-trivial. ")
+    ck.extra["keys_input_classes"] = hist
 
 
 # ------------------------------------------------------------------------------------------ dates
@@ -446,7 +495,7 @@ def run(ck):
         "C04: city.CH64 on label strings is an oracle (per-case table from the exported function); Hash128to64 and CH64 over the 24 accumulator bytes are transcribed and checked by the correspondence; FingerPrintType = CityHash (default) only",
         "C04: strconv.IsPrint on runes > 0xFF is an oracle table; ClickHouse's JSON functions are assumed to accept exactly RFC 8259 (LabelJson.v) on these documents",
         "C04: fingerprint injectivity is conditional on collision-freeness hypotheses that are tested, not proved",
-        "C04 histories: the (day, fingerprint, type) cache key CH64(day || fp || type) is modelled as the triple itself (no collisions); fastcache has no false positives; a cache reset is modelled by installing an empty cache (the ticker's Reset is unreachable); requests stay below the 1 MiB mid-request flush; single node (the cache is disabled in cluster mode)",
+        "C04 histories: the (day, fingerprint, type) cache key CH64(day || fp || type) is modelled as the triple itself (no collisions); fastcache has no false positives; the cache is the production GoCache; a cache reset runs the ticker's body through hook VerifC04Reset; CH64 collision-freeness of the 64-bit key is a hypothesis of announcement_cache_refines; requests stay below the 1 MiB mid-request flush; single node (the cache is disabled in cluster mode)",
         "C04 dates: ch-go's ToDate and Go's time.Truncate are transcribed (checked by the correspondence over 32 zones); the reader's own zone (upper date bound) belongs to C13",
     ]
     ck.coq_props()
@@ -455,4 +504,5 @@ def run(ck):
         return
     run_labels(ck)
     run_hist(ck)
+    run_keys(ck)
     run_dates(ck)
